@@ -14,6 +14,7 @@ import (
 	"os"
 	"strings"
 	"sync"
+	"sync/atomic"
 	"time"
 
 	"github.com/pkg/errors"
@@ -257,14 +258,18 @@ func bvRun(c *bvCase) string {
 
 	done := make(chan error, 1)
 	var panicMsg string
+	var returned int32
 	go func() {
 		defer func() {
 			if r := recover(); r != nil {
 				panicMsg = fmt.Sprint(r)
+				atomic.StoreInt32(&returned, 1)
 				done <- errors.New("panic")
 			}
 		}()
-		done <- bd.HandleBlock(ctx, given, uint64(c.Count), ch)
+		err := bd.HandleBlock(ctx, given, uint64(c.Count), ch)
+		atomic.StoreInt32(&returned, 1)
+		done <- err
 	}()
 	if c.Fault.Kind == "cancelend" {
 		// every transaction has been handed over and handled; the download is cancelled before the stream ends
@@ -272,8 +277,8 @@ func bvRun(c *bvCase) string {
 			rec.mu.Lock()
 			n := rec.procN
 			rec.mu.Unlock()
-			if n >= len(arriving) {
-				break
+			if n >= len(arriving) || atomic.LoadInt32(&returned) == 1 {
+				break // everything handled - or the handler gave up on the stream before its end
 			}
 			time.Sleep(50 * time.Microsecond)
 		}
